@@ -26,6 +26,14 @@ class HarnessError(Exception):
     """Something in the machinery (not the tree under test) went wrong."""
 
 
+def _alarm(signum, frame):
+    try:
+        sys.stderr.write("dst: child alarm, dumping tracebacks\n")
+        faulthandler.dump_traceback(all_threads=True)
+    finally:
+        os._exit(4)
+
+
 def fork_call(fn: Callable[..., Any], *args, timeout: float = None) -> Any:
     """Run fn(*args) in a forked child, return its JSON-able result.
 
@@ -39,8 +47,9 @@ def fork_call(fn: Callable[..., Any], *args, timeout: float = None) -> Any:
         code = 0
         try:
             os.close(r)
-            faulthandler.enable()
-            faulthandler.dump_traceback_later(max(1.0, timeout - 1.0), exit=False)
+            # hang diagnosis without a watchdog thread (children may fork again)
+            signal.signal(signal.SIGALRM, _alarm)
+            signal.alarm(max(1, int(timeout) - 1))
             try:
                 res = {"ok": fn(*args)}
             except BaseException:
@@ -50,6 +59,7 @@ def fork_call(fn: Callable[..., Any], *args, timeout: float = None) -> Any:
             while off < len(data):
                 off += os.write(w, data[off:])
             os.close(w)
+            signal.alarm(0)
         except BaseException:
             code = 3
             try:
